@@ -65,3 +65,39 @@ Proof.
   intros b es ridx W. split; [exact (bc_prev_first b es ridx W)|]. split; [exact (bc_next_end b es ridx W)|exact (bc_prev_end b es ridx W)].
 Qed.
 Print Assumptions C03_block_ends_do_not_move.
+
+(* ================= the multi-level cursor refines the abstract cursor (backbone R) =================
+   wf_store ld root levels bstore: what a reader sees of a well-formed file of any index depth — every
+   block offset maps to a well-formed block (strictly ascending framed entries, restart table), index
+   items are 8-byte offsets of stored blocks carrying the last key of the block they point to, every
+   level sequence is strictly ascending, blocks of different levels have different offsets.
+   content = the entries of the data level in order.  Rel p st relates the abstract position
+   (Fresh | At i | Unspec) to the concrete cursor state (block cache coherent; at At i every cached
+   cursor sits on the path to entry i). *)
+From Grenad.proofs Require Import ReaderRefine.
+
+(* every operation the property specifies (all of them, except relative moves and `current` issued
+   after an operation returned None), from every related state — i.e. after ANY history — returns
+   the result of the abstract cursor and re-establishes the relation *)
+Theorem C03_step : forall ld root levels bstore, wf_store ld root levels bstore ->
+  forall p st o, Rel root bstore levels p st -> admissible p o ->
+  exists st' r, cstep ld root levels st o = Done (st', r) /\
+    Rel root bstore levels (fst (aspec (content root levels bstore) p o)) st' /\
+    res_ok (snd (aspec (content root levels bstore) p o)) r /\
+    cs_loads st' <= cs_loads st + 2 * (levels + 2).
+Proof. exact R_step. Qed.
+Print Assumptions C03_step.
+
+(* whole histories: every specified result of every admissible operation sequence equals the abstract
+   cursor's; a fresh cursor (and any cursor after reset) starts related to Fresh *)
+Theorem C03_history : forall ld root levels bstore, wf_store ld root levels bstore ->
+  forall ops p st, Rel root bstore levels p st -> admissible_ops root bstore levels p ops ->
+  exists st' rs, run_ops ld root levels st ops = Done (st', rs) /\
+    Rel root bstore levels (fst (spec_ops root bstore levels p ops)) st' /\
+    Forall2 res_ok (snd (spec_ops root bstore levels p ops)) rs.
+Proof. exact R_history. Qed.
+Print Assumptions C03_history.
+
+Theorem C03_fresh_related : forall root levels bstore, Rel root bstore levels Fresh cs_fresh.
+Proof. intros root levels bstore. exact (fresh_rel root bstore levels). Qed.
+Print Assumptions C03_fresh_related.
